@@ -312,6 +312,8 @@ def run_op(b: Built, op: dict):
         b.powertrain.reset()
         if op.get('reinit', True):
             apply_initial_conditions(b, op.get('init'), pwm=op.get('reinit_pwm', True))
+    elif kind == 'set_pwm':
+        b.motor.pwm = op['value']          # the user sets the duty cycle by hand between two runs
     else:
         raise ValueError(kind)
 
